@@ -134,7 +134,7 @@ class Interp:
                 push = t
             elif k == "newtd":
                 line = [Sym("newtd"), [[kk, i] for kk, i in ins["ents"]]]
-                push = TD({kk: R[i] for kk, i in ins["ents"]}, batch_size=ins["bs"])
+                push = TD({kk: R[i] for kk, i in ins["ents"]}, batch_size=ins["bs"], device=ins.get("device"))
             elif k == "get":
                 line = [Sym("get"), ins["r"], list(ins["p"])]
                 push = R[ins["r"]].get(tuple(ins["p"]))
@@ -427,20 +427,21 @@ def gen_program(rng, n_hist, force=None):
         return len(it.regs) - 1
 
     nested = rng.random() < 0.75
+    dev = rng.choice([None, "cpu"])     # a tensordict with a device takes other code paths (_clone_recurse ...)
     a = newt(bs)
     b = newt(bs + ([0] if zf else [2]))
     if nested:
         c = newt(bs + [3])
         d = newt(bs)
-        emit({"i": "newtd", "ents": [["d", d]], "bs": bs})
+        emit({"i": "newtd", "ents": [["d", d]], "bs": bs, "device": dev})
         m = len(it.regs) - 1
-        emit({"i": "newtd", "ents": [["c", c], ["m", m]], "bs": bs})
+        emit({"i": "newtd", "ents": [["c", c], ["m", m]], "bs": bs, "device": dev})
         n = len(it.regs) - 1
         ents = [["a", a], ["b", b], ["n", n]]
         rng.shuffle(ents)
-        emit({"i": "newtd", "ents": ents, "bs": bs})
+        emit({"i": "newtd", "ents": ents, "bs": bs, "device": dev})
     else:
-        emit({"i": "newtd", "ents": [["a", a], ["b", b]], "bs": bs})
+        emit({"i": "newtd", "ents": [["a", a], ["b", b]], "bs": bs, "device": dev})
     root = len(it.regs) - 1
     if rng.random() < 0.15:
         emit({"i": "lock", "r": root, "b": True})
@@ -695,45 +696,89 @@ def reflect_cases(rng, reps, max_hist):
     return cases
 
 
-def _reflect_worker(chunk):
+class _CaseTimeout(BaseException):
+    """raised by SIGALRM inside a worker: BaseException so that no `except Exception` of the code under test swallows it"""
+
+
+def _alarm(signum, frame):
+    raise _CaseTimeout()
+
+
+def _guard_worker():
+    """a runaway case (endless loop, runaway allocation) must become an observation, never a dead worker"""
+    import resource
+    import signal
     import warnings
     warnings.filterwarnings("ignore")
     T()["torch"].set_num_threads(1)
+    try:
+        resource.setrlimit(resource.RLIMIT_AS, (12 << 30, 12 << 30))
+    except Exception:  # noqa: BLE001
+        pass
+    signal.signal(signal.SIGALRM, _alarm)
+    return signal
+
+
+def _reflect_worker(chunk):
+    signal = _guard_worker()
     out = []
     for case in chunk:
+        signal.alarm(20)
         try:
             r = RF.run_case(case)
+        except _CaseTimeout:
+            r = {"status": "timeout", "fails": [], "cls": "?", "desc": None, "method": "?", "obs": {}}
+        except MemoryError:
+            r = {"status": "memory", "fails": [], "cls": "?", "desc": None, "method": "?", "obs": {}}
         except Exception as e:  # noqa: BLE001
             r = {"status": "harness-error:" + type(e).__name__ + ":" + str(e)[:200], "fails": [], "cls": "?", "desc": None, "method": "?", "obs": {}}
+        finally:
+            signal.alarm(0)
         out.append({"status": r["status"], "fails": r["fails"], "cls": r["cls"], "desc": r.get("desc"), "method": r.get("method"),
                     "obs": r.get("obs", {})})
     return out
 
 
 def pmap(fn, items, procs=14, chunk=60):
+    """fork pool that survives a dying worker: chunks whose worker died are re-run in this process"""
+    import concurrent.futures as cf
     import multiprocessing as mp
     chunks = [items[i:i + chunk] for i in range(0, len(items), chunk)]
     if len(chunks) <= 1:
         return [y for c in chunks for y in fn(c)]
-    ctx = mp.get_context("fork")
-    with ctx.Pool(min(procs, len(chunks))) as p:
-        res = p.map(fn, chunks)
+    res = [None] * len(chunks)
+    try:
+        with cf.ProcessPoolExecutor(max_workers=min(procs, len(chunks)), mp_context=mp.get_context("fork")) as ex:
+            futs = {ex.submit(fn, c): i for i, c in enumerate(chunks)}
+            for f in cf.as_completed(futs):
+                try:
+                    res[futs[f]] = f.result()
+                except Exception:  # noqa: BLE001  (BrokenProcessPool and friends)
+                    pass
+    except Exception:  # noqa: BLE001
+        pass
+    for i, c in enumerate(chunks):
+        if res[i] is None:
+            res[i] = fn(c)
     return [y for c in res for y in c]
 
 
 def _program_worker(jobs):
-    import warnings
-    warnings.filterwarnings("ignore")
-    T()["torch"].set_num_threads(1)
+    signal = _guard_worker()
     out = []
     for (seed, nh, force) in jobs:
         rng = random.Random(seed)
+        signal.alarm(20)
         try:
             prog, it = gen_program(rng, nh, force)
             out.append({"seed": seed, "prog": prog, "line": model_line(it), "outs": it.outs, "dump": it.dump(),
                         "expanded": has_overlap_write(prog, it)})
+        except (_CaseTimeout, MemoryError) as e:
+            out.append({"seed": seed, "error": type(e).__name__})
         except Exception as e:  # noqa: BLE001
             out.append({"seed": seed, "error": type(e).__name__ + ":" + str(e)[:300]})
+        finally:
+            signal.alarm(0)
     return out
 
 
@@ -789,8 +834,13 @@ def main(R):
         R.count("history-length:%d" % len(case["hist"]))
         if st.startswith("harness-error"):
             R.broken.append("reflection harness error on %s: %s" % (key[:200], st))
+        if st in ("timeout", "memory"):
+            R.count("reflect:runaway-case:" + st)
+            R.extra.setdefault("runaway_cases", []).append(case)
         if ran:
             covered.add(r["method"])
+            if isinstance(r.get("desc"), dict) and isinstance(r["desc"].get("m"), str):
+                covered.add(r["desc"]["m"].split("(")[0])
             R.traces += 1
         if "+" in st:
             R.count("reflect:check-incomplete:" + st.split("+")[1].split(":")[0])
@@ -800,6 +850,10 @@ def main(R):
             R.count("inplace-rejected-without-overlap:" + case["op"])
     R.extra["public_methods_exercised"] = sorted(covered)
     R.extra["public_methods_skipped_with_reason"] = {k: v for k, v in RF.SKIPPED.items()}
+    public = sorted(n for n in dir(T()["TD"]) if not n.startswith("_") or (n.startswith("__") and n.endswith("__")))
+    skipped = {m for v in RF.SKIPPED.values() for m in v}
+    R.extra["public_names"] = len(public)
+    R.extra["public_names_not_classified"] = [n for n in public if n not in covered and n not in skipped]
     # ------------------------------------------------------------------ (2) programs: model vs implementation
     if ok:
         # the model's classification against the documentation-derived one
